@@ -135,6 +135,12 @@ fn conv_raw_to_gds(src: &mut Src) -> Result<(String, usize), String> {
             c.shapes.insert(0, rawlib::RShape { layer: 0, purpose: 0, geom: rawlib::RGeom::Poly(vec![(7, 7), (9, 7), (9, 3_000_000_000), (7, 9)]), net: None });
         }
     }
+    // a cell that has no view at all and that nothing instantiates, now and then (a placeholder)
+    if src.prob(1, 6) {
+        m.cells.push(rawlib::RCell { name: "placeholder".into(), has_layout: false, shapes: vec![], insts: vec![], annotations: vec![], abs: None });
+        let at = src.index(m.listing.len() + 1);
+        m.listing.insert(at, m.cells.len() - 1);
+    }
     let b = rawlib::build(&m);
     // the caller may or may not keep handles on the cells while the library is exported: every other
     // materialisation drops them first (the result may not depend on who else holds a cell)
